@@ -390,3 +390,29 @@ Example C07_client_opts_inhabited :
   Forall opt_ok decline /\ plain_opts decline /\ opts_bytes_ok decline.
 Proof. exact client_opts_inhabited. Qed.
 Print Assumptions C07_client_opts_inhabited.
+
+(* ================================================================ *)
+(* C07_history.  Model/SendHistory.v: an event is one call of a send path — by the application, or by a
+   handler when it processes a packet or a timer fires (purge probes, arp_spoofer hunt loop / spoofed reply,
+   DHCP replies / DISCOVER burst / forced decline and release, icmp_spoofer NA / RA / RS, dns_naming
+   queries); [emit] is the send function the code calls for it and [run] the frames written along a history.
+   For every configuration and every history of events with admissible arguments (and arbitrary previous
+   buffer contents) every frame satisfies the well-formedness predicate of the path that emitted it ... *)
+From PV Require Import Model.SendHistory Proofs.SendHistory.
+
+Theorem C07_history : forall c (h : list step),
+  cfg_ok c -> Forall step_ok h ->
+  forall s fr, In s h -> In fr (frames_of (emit c s)) -> wf_event c (fst (fst s)) fr = true.
+Proof. exact history_wf. Qed.
+Print Assumptions C07_history.
+
+(* ... in particular it decodes under the reference decoder and is sourced from the host NIC MAC *)
+Theorem C07_history_frames_from_host : forall c (h : list step),
+  cfg_ok c -> Forall step_ok h -> Forall (fun fr => frame_from_host (host_mac c) fr = true) (run c h).
+Proof. exact history_frames_from_host. Qed.
+Print Assumptions C07_history_frames_from_host.
+
+Example C07_history_inhabited :
+  exists c h, cfg_ok c /\ Forall step_ok h /\ length (run c h) = 4%nat.
+Proof. exact history_inhabited. Qed.
+Print Assumptions C07_history_inhabited.
